@@ -1,6 +1,7 @@
 """props/C06.py — descriptor for property C06 (model objects always describe a valid (PO)MDP)."""
 REPO_SRCS = ["src/MDP/Model.cpp", "src/MDP/SparseModel.cpp", "src/Utils/Probability.cpp", "src/Seeder.cpp",
-             "src/POMDP/Algorithms/AMDP.cpp"]
+             "src/POMDP/Algorithms/AMDP.cpp", "src/Factored/MDP/CooperativeModel.cpp",
+             "src/Factored/Utils/BayesianNetwork.cpp", "src/Factored/Utils/Core.cpp", "src/Factored/Utils/FactoredMatrix.cpp"]
 AXIOM_ALLOW = []
 TRUSTED_BASE = [
     "harness/C06/h.cpp glue (table layouts, RawModel/RawPOMDP sources of the copy constructors, dumps through every getter)",
@@ -16,7 +17,9 @@ ASSUMPTIONS = [
 RULE = ("op sequences on MDP::Model, MDP::SparseModel, POMDP::Model<MDP::Model>, POMDP::SparseModel<MDP::SparseModel>: "
         "constructors (s,a,discount)/(s,a,t,r,d)/copy-from-IsModel and every setter, with valid (dyadic and general), "
         "off-by-rounding (1 +- {0.9,1.1}e-6), negative, NaN, +-inf, wrong-sum tables and discounts "
-        "{-1,0,1e-300,1/2,3/4,1,1+2^-52,2,NaN,inf,-inf}; single isProbability calls for all 7 overloads. "
+        "{-1,0,1e-300,1/2,3/4,1,1+2^-52,2,NaN,inf,-inf}; single isProbability calls for all 7 overloads; AMDP discretisations of small POMDPs; "
+        "DDNGraph::push sequences (malformed tags, wrong number of feature sets, too many pushes) followed by "
+        "CooperativeModel constructor / setDiscount calls. "
         "non-trivial = the sequence contains both an accepted and a rejected call (isprob: a rejected table)")
 THOROUGH_SEEDS = 2
 CASE_TIMEOUT = 20
@@ -115,6 +118,90 @@ def discount(rng, bad):
 
 def maybe(rng, p): return rng.random() < p
 
+# ---------------------------------------------------------------- CooperativeModel / DDNGraph::push
+def L(xs): return "%d %s" % (len(xs), " ".join(map(str, xs))) if len(xs) else "0"
+
+def py_tag_ok(space, tag):
+    return len(tag) > 0 and all(a < b for a, b in zip(tag, tag[1:])) and all(v < len(space) for v in tag)
+
+def py_fsp(ids, space):
+    r = 1
+    for i in ids: r *= space[i]
+    return r
+
+def rand_tag(rng, space, maxlen=2):
+    k = rng.randint(1, min(maxlen, len(space)))
+    return sorted(rng.sample(range(len(space)), k))
+
+def bad_tag(rng, space):
+    t = rand_tag(rng, space)
+    k = rng.choice(["empty", "high", "dup", "unsorted", "toomany"])
+    if k == "empty": return []
+    if k == "high": return t[:-1] + [len(space) + rng.randint(0, 1)]
+    if k == "dup": return [t[0], t[0]]
+    if k == "unsorted": return [t[0] + 1, t[0]] if t[0] + 1 < len(space) else [t[0], t[0]]
+    return list(range(len(space))) + [len(space) - 1]
+
+def gen_coop(rng):
+    S = [rng.choice([2, 2, 3]) for _ in range(rng.randint(1, 3))]
+    A = [rng.choice([2, 2, 3]) for _ in range(rng.randint(1, 2))]
+    pushes = []; accepted = []
+    npush = len(S) + (1 if maybe(rng, 0.15) else 0) - (1 if maybe(rng, 0.1) else 0)
+    tries = 0
+    while len(pushes) < npush + 0 and tries < 8:
+        tries += 1
+        agents = rand_tag(rng, A); feats = [rand_tag(rng, S) for _ in range(py_fsp(agents, A))]
+        if maybe(rng, 0.2):
+            k = rng.choice(["agents", "count", "feat"])
+            if k == "agents": agents = bad_tag(rng, A)
+            elif k == "count": feats = feats + [rand_tag(rng, S)] if maybe(rng, 0.5) else feats[:-1]
+            else: feats[rng.randrange(len(feats))] = bad_tag(rng, S)
+        pushes.append((agents, feats))
+        ok = (len(accepted) < len(S) and py_tag_ok(A, agents) and len(feats) == (py_fsp(agents, A) if py_tag_ok(A, agents) else -1)
+              and all(py_tag_ok(S, f) for f in feats))
+        if ok: accepted.append((agents, feats))
+        elif maybe(rng, 0.7): npush += 1      # usually retry the node after a rejected push
+    toks = ["coop", L(S), L(A), str(len(pushes))]
+    for agents, feats in pushes:
+        toks += [L(agents), str(len(feats))] + [L(f) for f in feats]
+    def ctor():
+        mats = []
+        for i, (agents, feats) in enumerate(accepted):
+            rows = sum(py_fsp(f, S) for f in feats); cols = S[i] if i < len(S) else 2
+            data = [dyadic_row(rng, cols) for _ in range(rows)]
+            mats.append([rows, cols, data])
+        if maybe(rng, 0.3) and mats:
+            k = rng.choice(["rows", "cols", "badrow", "drop", "extra"])
+            m = mats[rng.randrange(len(mats))]
+            if k == "rows": m[2].append(dyadic_row(rng, m[1])); m[0] += 1
+            elif k == "cols": m[1] += 1; m[2] = [r + [0.0] for r in m[2]]
+            elif k == "badrow" and m[0] > 0: m[2][rng.randrange(m[0])] = make_row(rng, m[1], rng.choice(["nan", "inf", "sum_lo", "sum_hi", "neg", "zeros"]))
+            elif k == "drop": mats.pop()
+            elif k == "extra": mats.append([1, 2, [[0.5, 0.5]]])
+        bases = []
+        for _ in range(rng.randint(0, 2)):
+            tag = rand_tag(rng, S); atag = rand_tag(rng, A)
+            rows = py_fsp(tag, S); cols = py_fsp(atag, A)
+            if maybe(rng, 0.2):
+                k = rng.choice(["tag", "atag", "rows", "cols"])
+                if k == "tag": tag = bad_tag(rng, S); rows = 1
+                elif k == "atag": atag = bad_tag(rng, A); cols = 1
+                elif k == "rows": rows += 1
+                else: cols += 1
+            bases.append((tag, atag, rows, cols))
+        t = ["cctor", discount(rng, maybe(rng, 0.25)), str(len(mats))]
+        for rows, cols, data in mats:
+            flat = [x for r in data for x in r]
+            t += [str(rows), str(cols), ("%d %s" % (len(flat), " ".join(fx(x) for x in flat))) if flat else "0"]
+        t.append(str(len(bases)))
+        for tag, atag, rows, cols in bases: t += [L(tag), L(atag), str(rows), str(cols)]
+        return " ".join(t)
+    ops = []
+    for i in range(rng.randint(1, 4)):
+        ops.append(ctor() if (i == 0 or maybe(rng, 0.4)) else "csetd %s" % discount(rng, maybe(rng, 0.45)))
+    toks += [str(len(ops))] + ops
+    return " ".join(toks)
+
 def gen(rng, tier):
     n = {"quick": 420, "thorough": 4000, "search": 1500}[tier]
     out = []
@@ -136,6 +223,9 @@ def gen(rng, tier):
             rng.choice(["d", "d", "s"]), rng.randrange(1, 10 ** 6), rng.choice([1, 2, 5, 20, 60]), rng.choice([1, 2, 3, 4]),
             O, dyt(S, A, O), S, A, rng.choice(["1/2", "3/4", "1"]), dyt(S, A, S),
             "%d %s" % (S * A * S, " ".join(str(rng.randint(-4, 8)) for _ in range(S * A * S)))))
+    # -- factored models: DDNGraph::push sequences, then CooperativeModel constructor / setDiscount
+    for _ in range(max(30, n // 8)):
+        out.append(gen_coop(rng))
     # -- op sequences.  Setter dimensions must match the object that exists, so the generator
     #    mirrors the accept/reject rule just enough to know which constructor succeeded: it builds
     #    constructors that are either entirely valid or contain exactly one planted defect.
